@@ -21,11 +21,15 @@ def SiftInv (d : Data) (first lo hi r : Int) : Prop :=
   (∀ p c, lo ≤ p → (r = 2*p+1 ∨ r = 2*p+2) → (c = 2*r+1 ∨ c = 2*r+2) → c < hi →
     vi d (first + c) ≤ vi d (first + p))
 
-theorem pickChild_spec (d : Data) (first child hi : Int) (hf : 0 ≤ first) (hc0 : 0 ≤ child) (hc : child < hi)
+/-- the heap child arithmetic dictated by the algorithm: `child = 2*root+1`, sibling `child+1` -/
+def Cfg.HeapOK (cf : Cfg) : Prop := cf.heapMul = 2 ∧ cf.heapAdd = 1 ∧ cf.heapSib = 1
+
+theorem pickChild_spec (cf : Cfg) (hk : cf.HeapOK) (d : Data) (first child hi : Int) (hf : 0 ≤ first) (hc0 : 0 ≤ child) (hc : child < hi)
     (hsz : first + hi ≤ d.size) :
-    ∃ c, pickChild d first child hi = .ok c ∧ (c = child ∨ (c = child + 1 ∧ child + 1 < hi)) ∧
+    ∃ c, pickChild cf d first child hi = .ok c ∧ (c = child ∨ (c = child + 1 ∧ child + 1 < hi)) ∧
       vi d (first + child) ≤ vi d (first + c) ∧ (child + 1 < hi → vi d (first + child + 1) ≤ vi d (first + c)) := by
   unfold pickChild
+  rw [hk.2.2]
   by_cases h1 : child + 1 < hi
   · rw [if_pos h1, lt_total (by omega) (by omega) (by omega) (by omega)]
     by_cases h2 : vi d (first + child) < vi d (first + child + 1)
@@ -40,10 +44,10 @@ theorem pickChild_spec (d : Data) (first child hi : Int) (hf : 0 ≤ first) (hc0
     exact ⟨child, rfl, Or.inl rfl, Int.le_refl _, fun h => absurd h h1⟩
 
 
-theorem siftLoop_spec (first lo hi : Int) (hf : 0 ≤ first) (hlo : 0 ≤ lo) :
+theorem siftLoop_spec (cf : Cfg) (hk : cf.HeapOK) (first lo hi : Int) (hf : 0 ≤ first) (hlo : 0 ≤ lo) :
     ∀ (f : Nat) (d : Data) (r : Int), lo ≤ r → first + hi ≤ d.size → hi - r + 1 ≤ f → 1 ≤ f →
       SiftInv d first lo hi r →
-      ∃ d', siftLoop f d r hi first = .ok d' ∧ RP (first + lo) (first + hi) d d' ∧ HeapFrom d' first lo hi := by
+      ∃ d', siftLoop cf f d r hi first = .ok d' ∧ RP (first + lo) (first + hi) d d' ∧ HeapFrom d' first lo hi := by
   intro f
   induction f with
   | zero => intro d r _ _ _ h1; omega
@@ -51,7 +55,7 @@ theorem siftLoop_spec (first lo hi : Int) (hf : 0 ≤ first) (hlo : 0 ≤ lo) :
     intro d r hr hsz hfuel _ hinv
     obtain ⟨inv1, inv2⟩ := hinv
     unfold siftLoop
-    simp only
+    simp only [hk.1, hk.2.1]
     by_cases hch : 2 * r + 1 ≥ hi
     · rw [if_pos hch]
       refine ⟨d, rfl, RP.refl _ _ _, ?_⟩
@@ -60,7 +64,7 @@ theorem siftLoop_spec (first lo hi : Int) (hf : 0 ≤ first) (hlo : 0 ≤ lo) :
       · subst hkr; exact ⟨fun h => by omega, fun h => by omega⟩
       · exact inv1 k hk1 hk2 hkr
     · rw [if_neg hch]
-      obtain ⟨c, hpick, hcc, hc1, hc2⟩ := pickChild_spec d first (2*r+1) hi hf (by omega) (by omega) hsz
+      obtain ⟨c, hpick, hcc, hc1, hc2⟩ := pickChild_spec cf hk d first (2*r+1) hi hf (by omega) (by omega) hsz
       rw [hpick]
       simp only
       have hcr : r < c ∧ c < hi := by omega
@@ -151,33 +155,33 @@ theorem siftLoop_spec (first lo hi : Int) (hf : 0 ≤ first) (hlo : 0 ≤ lo) :
         · exact inv1 k hk1 hk2 hkr
 
 
-theorem siftDown_spec (d : Data) (first lo hi : Int) (hf : 0 ≤ first) (hlo : 0 ≤ lo)
+theorem siftDown_spec (cf : Cfg) (hk : cf.HeapOK) (d : Data) (first lo hi : Int) (hf : 0 ≤ first) (hlo : 0 ≤ lo)
     (hsz : first + hi ≤ d.size) (hpre : ∀ k, lo < k → k < hi → HeapAt d first hi k) :
-    ∃ d', siftDown d lo hi first = .ok d' ∧ RP (first + lo) (first + hi) d d' ∧ HeapFrom d' first lo hi := by
+    ∃ d', siftDown cf d lo hi first = .ok d' ∧ RP (first + lo) (first + hi) d d' ∧ HeapFrom d' first lo hi := by
   unfold siftDown
-  apply siftLoop_spec first lo hi hf hlo _ d lo (Int.le_refl _) hsz (by omega) (by omega)
+  apply siftLoop_spec cf hk first lo hi hf hlo _ d lo (Int.le_refl _) hsz (by omega) (by omega)
   constructor
   · intro k h1 h2 h3; exact hpre k (by omega) h2
   · intro p c hp hr; omega
 
-theorem heapBuild_spec (d : Data) (i hi first : Int) : 0 ≤ first → first + hi ≤ d.size →
-    HeapFrom d first (i+1) hi →
-    ∃ d', heapBuild d i hi first = .ok d' ∧ RP first (first + hi) d d' ∧ HeapFrom d' first 0 hi := by
-  fun_induction heapBuild d i hi first
+theorem heapBuild_spec (cf : Cfg) (hk : cf.HeapOK) (d : Data) (i hi first : Int) : 0 ≤ first → first + hi ≤ d.size →
+    (∀ k, i + 1 ≤ k → 0 ≤ k → k < hi → HeapAt d first hi k) →
+    ∃ d', heapBuild cf d i hi first = .ok d' ∧ RP first (first + hi) d d' ∧ HeapFrom d' first 0 hi := by
+  fun_induction heapBuild cf d i hi first
   all_goals intro hf hsz hh
   case case1 d i h0 d1 hsd ih =>
-    obtain ⟨d1', hr, hrp, hh1⟩ := siftDown_spec d first i hi hf h0 hsz (fun k h1 h2 => hh k (by omega) h2)
+    obtain ⟨d1', hr, hrp, hh1⟩ := siftDown_spec cf hk d first i hi hf h0 hsz (fun k h1 h2 => hh k (by omega) (by omega) h2)
     rw [hr] at hsd; cases hsd
-    obtain ⟨d', hr', hrp', hh'⟩ := ih hf (by rw [hrp.1]; exact hsz) (by simpa using hh1)
+    obtain ⟨d', hr', hrp', hh'⟩ := ih hf (by rw [hrp.1]; exact hsz) (fun k h1 _ h2 => hh1 k (by omega) h2)
     exact ⟨d', hr', (hrp.mono (by omega) (Int.le_refl _)).trans hrp', hh'⟩
   case case2 d i h0 hsd =>
-    obtain ⟨d1', hr, _⟩ := siftDown_spec d first i hi hf h0 hsz (fun k h1 h2 => hh k (by omega) h2)
+    obtain ⟨d1', hr, _⟩ := siftDown_spec cf hk d first i hi hf h0 hsz (fun k h1 h2 => hh k (by omega) (by omega) h2)
     rw [hr] at hsd; cases hsd
   case case3 d i h0 hsd =>
-    obtain ⟨d1', hr, _⟩ := siftDown_spec d first i hi hf h0 hsz (fun k h1 h2 => hh k (by omega) h2)
+    obtain ⟨d1', hr, _⟩ := siftDown_spec cf hk d first i hi hf h0 hsz (fun k h1 h2 => hh k (by omega) (by omega) h2)
     rw [hr] at hsd; cases hsd
   case case4 d i h0 =>
-    exact ⟨d, rfl, RP.refl _ _ _, fun k h1 h2 => hh k (by omega) h2⟩
+    exact ⟨d, rfl, RP.refl _ _ _, fun k h1 h2 => hh k (by omega) h1 h2⟩
 
 /-- the root of a heap is its maximum -/
 theorem heap_root_max (d : Data) (first n : Int) (hh : HeapFrom d first 0 n) :
@@ -243,17 +247,17 @@ theorem pop_sift_pre {d d1 : Data} {first i : Int} (h0 : 0 ≤ i) (hheap : HeapF
     simp only [n1, n2, n3, n4, if_false]
     exact hk.2 (by omega)
 
-theorem heapPop_spec (hi : Int) (d : Data) (i first : Int) : 0 ≤ first → first + hi ≤ d.size → i < hi →
+theorem heapPop_spec (cf : Cfg) (hk : cf.HeapOK) (hi : Int) (d : Data) (i first : Int) : 0 ≤ first → first + hi ≤ d.size → i < hi →
     PopInv d first hi (i+1) →
-    ∃ d', heapPop d i first = .ok d' ∧ RP first (first + hi) d d' ∧ SortedOn first (first + hi) d' := by
-  fun_induction heapPop d i first
+    ∃ d', heapPop cf d i first = .ok d' ∧ RP first (first + hi) d d' ∧ SortedOn first (first + hi) d' := by
+  fun_induction heapPop cf d i first
   all_goals intro hf hsz hihi hinv
   case case1 d i h0 d1 hsw d2 hsd ih =>
     obtain ⟨hheap, hsorted, hcross⟩ := hinv
     obtain ⟨hs1, _, _, _, _, hv⟩ := swap_spec hsw
     have hv' := swap_first_vi h0 hsw
     have hmax := heap_root_max d first (i+1) hheap
-    obtain ⟨d2', hr2, hrp2, hh2⟩ := siftDown_spec d1 first 0 i hf (Int.le_refl _) (by rw [hs1]; omega)
+    obtain ⟨d2', hr2, hrp2, hh2⟩ := siftDown_spec cf hk d1 first 0 i hf (Int.le_refl _) (by rw [hs1]; omega)
       (pop_sift_pre h0 hheap hsw)
     rw [hr2] at hsd; cases hsd
     obtain ⟨hs2, hfr2, hmem2⟩ := hrp2
@@ -313,12 +317,12 @@ theorem heapPop_spec (hi : Int) (d : Data) (i first : Int) : 0 ≤ first → fir
     exact (rp1.trans rp2).trans hrp'
   case case2 d i h0 d1 hsw hsd =>
     obtain ⟨hs1, _⟩ := swap_spec hsw
-    obtain ⟨d2', hr2, _⟩ := siftDown_spec d1 first 0 i hf (Int.le_refl _) (by rw [hs1]; omega)
+    obtain ⟨d2', hr2, _⟩ := siftDown_spec cf hk d1 first 0 i hf (Int.le_refl _) (by rw [hs1]; omega)
       (pop_sift_pre h0 hinv.1 hsw)
     rw [hr2] at hsd; cases hsd
   case case3 d i h0 d1 hsw hsd =>
     obtain ⟨hs1, _⟩ := swap_spec hsw
-    obtain ⟨d2', hr2, _⟩ := siftDown_spec d1 first 0 i hf (Int.le_refl _) (by rw [hs1]; omega)
+    obtain ⟨d2', hr2, _⟩ := siftDown_spec cf hk d1 first 0 i hf (Int.le_refl _) (by rw [hs1]; omega)
       (pop_sift_pre h0 hinv.1 hsw)
     rw [hr2] at hsd; cases hsd
   case case4 d i h0 hsw =>
@@ -333,24 +337,34 @@ theorem heapPop_spec (hi : Int) (d : Data) (i first : Int) : 0 ≤ first → fir
     exact ⟨d, rfl, RP.refl _ _ _, fun p q h1 h2 h3 => hsorted p q (by omega) h2 h3⟩
 
 
+/-- the build loop of `heapSort` starts at or after the last inner node -/
+def Cfg.BuildOK (cf : Cfg) : Prop :=
+  (cf.heapBuildDiv = 2 ∧ cf.heapBuildSub ≤ 2) ∨ (cf.heapBuildDiv = 1 ∧ cf.heapBuildSub ≤ 1)
+
 /-- `heapSort(data, a, b)` on a valid range: no panic (the fuel of `siftDown` suffices), `data[a:b]` sorted, a
 rearrangement of `data[a:b]` -/
-theorem heapSort_spec (d : Data) (a b : Int) (h0 : 0 ≤ a) (hab : a ≤ b) (hb : b ≤ d.size) :
-    ∃ d', heapSort d a b = .ok d' ∧ RP a b d d' ∧ SortedOn a b d' := by
+theorem heapSort_spec (cf : Cfg) (hk : cf.HeapOK) (hbo : cf.BuildOK) (d : Data) (a b : Int) (h0 : 0 ≤ a) (hab : a ≤ b)
+    (hb : b ≤ d.size) :
+    ∃ d', heapSort cf d a b = .ok d' ∧ RP a b d d' ∧ SortedOn a b d' := by
   unfold heapSort
   simp only
-  have hbuild : HeapFrom d a (Int.tdiv (b - a - 1) 2 + 1) (b - a) := by
-    intro k hk1 hk2
+  have hbuild : ∀ k, Int.tdiv (b - a - cf.heapBuildSub) cf.heapBuildDiv + 1 ≤ k → 0 ≤ k → k < b - a →
+      HeapAt d a (b - a) k := by
+    intro k hk1 hk0 hk2
     have : 2 * k + 1 ≥ b - a := by
-      by_cases hz : b - a = 0
-      · rw [hz] at hk1; simp at hk1; omega
-      · have : Int.tdiv (b - a - 1) 2 = (b - a - 1) / 2 := Int.tdiv_eq_ediv_of_nonneg (by omega)
-        rw [this] at hk1; omega
+      rcases hbo with ⟨hD, hS⟩ | ⟨hD, hS⟩
+      · rw [hD] at hk1
+        by_cases hz : 0 ≤ b - a - cf.heapBuildSub
+        · have : Int.tdiv (b - a - cf.heapBuildSub) 2 = (b - a - cf.heapBuildSub) / 2 := Int.tdiv_eq_ediv_of_nonneg hz
+          rw [this] at hk1; omega
+        · omega
+      · rw [hD, Int.tdiv_one] at hk1; omega
     exact ⟨fun h => by omega, fun h => by omega⟩
-  obtain ⟨d1, hr1, hrp1, hh1⟩ := heapBuild_spec d (Int.tdiv (b - a - 1) 2) (b - a) a h0 (by omega) hbuild
+  obtain ⟨d1, hr1, hrp1, hh1⟩ := heapBuild_spec cf hk d (Int.tdiv (b - a - cf.heapBuildSub) cf.heapBuildDiv) (b - a) a h0
+    (by omega) hbuild
   rw [hr1]
   simp only
-  obtain ⟨d2, hr2, hrp2, hs2⟩ := heapPop_spec (b - a) d1 (b - a - 1) a h0 (by rw [hrp1.1]; omega) (by omega)
+  obtain ⟨d2, hr2, hrp2, hs2⟩ := heapPop_spec cf hk (b - a) d1 (b - a - 1) a h0 (by rw [hrp1.1]; omega) (by omega)
     ⟨by simpa using hh1, fun p q h1 h2 h3 => by omega, fun p q h1 h2 h3 h4 => by omega⟩
   have e : a + (b - a) = b := by omega
   rw [e] at hrp1 hrp2 hs2
